@@ -459,11 +459,11 @@ func c10(c *ctx) {
 					wantProtos = d.Protocols
 					switch (ci + variant) % 3 {
 					case 0:
-						d.Header = ws.HandshakeHeaderString("X-Client: verif\r\nOrigin: http://o.example\r\n")
+						d.Header = ws.HandshakeHeaderString("X-Client: verif\r\nOrigin: http://o.example\r\nX-Multi: one\r\nX-Multi: two\r\n")
 					case 1:
-						d.Header = ws.HandshakeHeaderBytes([]byte("X-Client: verif\r\nOrigin: http://o.example\r\n"))
+						d.Header = ws.HandshakeHeaderBytes([]byte("X-Client: verif\r\nOrigin: http://o.example\r\nX-Multi: one\r\nX-Multi: two\r\n"))
 					default:
-						d.Header = ws.HandshakeHeaderHTTP(http.Header{"X-Client": []string{"verif"}, "Origin": []string{"http://o.example"}})
+						d.Header = ws.HandshakeHeaderHTTP(http.Header{"X-Client": []string{"verif"}, "Origin": []string{"http://o.example"}, "X-Multi": []string{"one", "two"}})
 					}
 					wantExtra = true
 				}
@@ -519,7 +519,7 @@ func c10(c *ctx) {
 					"host": h.first("Host"), "hostCount": len(h.get("Host")), "upgrade": h.first("Upgrade"), "connection": h.first("Connection"),
 					"wsversion": h.first("Sec-WebSocket-Version"), "keyIs16Bytes": kerr == nil && len(kb) == 16 && len(h.get("Sec-WebSocket-Key")) == 1,
 					"keyFresh": kv != prevKey, "protocols": protos, "exts": exts,
-					"extraHeader": h.first("X-Client") == "verif" && h.first("Origin") == "http://o.example",
+					"extraHeader": h.first("X-Client") == "verif" && h.first("Origin") == "http://o.example" && strings.Join(h.get("X-Multi"), "|") == "one|two", // (every value of a repeated header, in order)
 					"wrapOK":      wrapOK, "dialAddr": addr, "tlsHost": tlsHost, "crlfOnly": !bytes.Contains(bytes.ReplaceAll(pc.req.Bytes(), []byte("\r\n"), nil), []byte("\n")), "err": fmt.Sprint(err)}
 				prevKey = kv
 				out.Emit(map[string]interface{}{"k": "req", "key": key, "url": dc.url, "wantURI": dc.uri, "wantHost": dc.host, "wantAddr": dc.addr, "wantTLSHost": dc.tls,
